@@ -123,8 +123,8 @@ LiTextsOf(L, M) == << <<"F","(",L,",","1",")">>, <<"F","(","1",",",L,")">>, <<"G
                       <<"F","(",L,",",M,")">> >>
 LiTexts(lo, hi) == Flat([i \in 1..(hi - lo + 1) |-> LiTextsOf(LiLits[lo + i - 1], LiLits[((lo + i - 1) % Len(LiLits)) + 1])])
 \* (three families: one dumped record must stay below the 8 kB a TLC worker writes atomically)
-LiFam(lo, hi) == Static(<< Fn("F", <<"x", "y">>, {<<"x">>, <<"y">>, <<"#", "x">>, <<"#", "y">>, <<"|">>}, 2),
-                           Fn("G", <<"x">>, {<<"x">>, <<"#", "x">>, <<"(", "x", ")">>}, 1) >>, LiTexts(lo, hi))
+LiFam(lo, hi) == Static(<< Fn("F", <<"x", "y">>, {<<"x">>, <<"y">>, <<"#", "x">>, <<"#", "y">>, <<"|">>, <<"'x'">>}, 2),
+                           Fn("G", <<"x">>, {<<"x">>, <<"#", "x">>, <<"(", "x", ")">>, <<"\"x\"">>, <<"\"O,F\"">>}, 1) >>, LiTexts(lo, hi))
 
 \* p3 / pv: chains of two ## (three operands: parameters, fixed tokens, __VA_ARGS__, __VA_OPT__),
 \*     every operand empty in turn at the call sites
